@@ -382,6 +382,8 @@ def tables(rec):
                 yield (kind, 2, times)
         yield ('pam', 1500, (1.0, 0.5))
         yield ('pam', 4, (2.0,))
+        yield ('pam-four', 60, (1.0, 0.5))
+        yield ('pam-four', 5, (2.0,))
         yield ('pam-zero-middle', 40, (1.0,))
         yield ('pam-zero-middle', 1, (1.0, 2.0))
 
@@ -513,6 +515,21 @@ def tables(rec):
                     msg = check_regimen(df, None, max(times), 0 if indefinite else 3)
                     if msg:
                         return msg
+            return None
+        if kind == 'pam-four':
+            # four models that all contribute (weights 1, 2, 1, 3): every sample has its own ID 1..n, whichever model it came from
+            models = []
+            for m in range(4):
+                ds, _ = posterior_ds(pm, 1, 2, ['a'], scale=0.0, offset=1000.0 * (m + 1))
+                models.append(real.PosteriorPredictiveModel(pm, ds))
+            pam = real.PAMPredictiveModel(models, weights=[1.0, 2.0, 1.0, 3.0])
+            for sd in range(3):
+                df = pam.sample(list(times), n_samples=n_samples, individual='a', seed=40 + sd)
+                msg, per_id = check_table(df, n_samples, times, tied=True)
+                if msg:
+                    return 'four averaged models, %d samples: %s' % (n_samples, msg)
+                if len(per_id) != n_samples:
+                    return 'four averaged models: %d samples are labelled with %d distinct IDs' % (n_samples, len(per_id))
             return None
         if kind == 'pam-zero-middle':
             # weights (1, 0, 2): the second model must never be chosen, the third must be (a count that is filed under the wrong model shows up here)
